@@ -184,6 +184,18 @@ impl Iterator for OsuGradualDifficulty {
     }
 
     fn nth(&mut self, n: usize) -> Option<Self::Item> {
+        // As per `Iterator::nth`, if there are less than `n + 1` values left
+        // then all of them are consumed and `None` is returned.
+        let remaining = self.len();
+
+        if n >= remaining {
+            if let Some(last) = remaining.checked_sub(1) {
+                let _ = self.nth(last);
+            }
+
+            return None;
+        }
+
         let skip_iter = self.diff_objects.iter().skip(self.idx.saturating_sub(1));
 
         let mut take = cmp::min(n, self.len().saturating_sub(1));
